@@ -46,10 +46,14 @@ def body(c):
     ts = json.load(open(SCHEMA))
     rng = random.Random(c.seed)
     # ---- M: the generator state machine with its invariants (small pools, complete) ----
-    mconf = {"mc": dict(valgen.BASE, MaxNodes=3, MaxSecs=2, MaxAlias=1, MaxArgs=1, MaxDirs=1, MaxVars=1, OpHeads=["query:", "query:Q"], FragNames=["F1"],
-                        Fields=["a", "id"], Conds=["A"], Spreads=["F1"], ArgPool=["x=int1"], DirPool=["skip(if=true)"], VarPool=["v|Int||"])}
+    mconf = {"mc": dict(valgen.BASE, MaxNodes=3, MaxSecs=2, MaxAlias=1, MaxArgs=1, MaxDirs=1, MaxVars=1, OpHeads=["query:Q"], FragNames=["F1"],
+                        Fields=["a", "id"], OpenOnly=["a"], LeafOnly=["id"], Conds=["A"], Spreads=["F1"], ArgPool=["x=int1"], DirPool=["skip(if=true)"], VarPool=["v|Int||"])}
     mmod = valgen.write_gen_module(c.work, "MC_GenValDoc", mconf, ["TypeOK", "DepthOK", "NoEmptySet"])
-    m = vlib.run_tlc(mmod, c.path("MC_GenValDoc.cfg"), workers=4, timeout=600, coverage=True, keep_lines=2000)
+    confs = valgen.g1_configs(c.quick)
+    with ThreadPoolExecutor(2) as ex:          # M and G1 side by side (JVM start-up dominates on a loaded machine)
+        fm = ex.submit(vlib.run_tlc, mmod, c.path("MC_GenValDoc.cfg"), workers=2, timeout=900, coverage=True, keep_lines=2000)
+        fg = ex.submit(run_g1, c, confs)
+        m, g1 = fm.result(), fg.result()
     if m.invariant_violated:
         raise vlib.ToolError("design-level failure in Gen_ValDoc.tla: " + str(m.invariant_violated))
     for act in ("AddField", "AddInline", "AddSpread", "Close", "NewSection"):
@@ -57,9 +61,7 @@ def body(c):
             raise vlib.ToolError("generator action %s never taken" % act)
     c.add_tlc("M Gen_ValDoc", m)
     # ---- G1 ----
-    confs = valgen.g1_configs(c.quick)
-    g1 = run_g1(c, confs)
-    cap = 450 if c.quick else 30000
+    cap = 200 if c.quick else 30000
     cases, exhaustive, g1_total = [], True, 0
     for label in sorted(g1):
         docs = g1[label]
@@ -76,7 +78,7 @@ def body(c):
     n_g1 = len(cases)
     # ---- G2 ----
     gen = valgen.ValidDocGen(ts, random.Random(c.seed + 99))
-    nbase = 260 if c.quick else 4000
+    nbase = 200 if c.quick else 4000
     per = 3 if c.quick else 6
     names = [n for n, _ in valgen.MUTATIONS]
     k = 0
@@ -112,7 +114,7 @@ def body(c):
         raise vlib.ToolError("c09 harness failed: " + p.stderr[-3000:])
     # ---- V ----
     v = vlib.run_tlc_sliced("gql/ValidationTrace.tla", "gql/ValidationTrace.cfg", c.path("trace.ndjson"), env={"SCHEMA": SCHEMA},
-                            slices=8, timeout=6000, keep_lines=60, xmx="3g")
+                            slices=6 if c.quick else 8, timeout=6000, keep_lines=60, xmx="3g")
     c.add_tlc("V ValidationTrace", v)
     legend = {"D": {}, "C": {}}
     for t in v.tagged("LEGEND"):
